@@ -568,9 +568,11 @@ func (e *Exec) lenOf(v Val, t types.Type) *Term {
 		r := e.vc.Fresh("maplen", BV(64))
 		e.vc.Assume(True, And(SGe(r, bv64zero), SLe(r, maxLen)))
 		e.declareRaw("(declare-fun maplen." + mangle(typeKey(u.Key())) + " (" + ArraySort(sortOf(u.Key()), SBool) + ") (_ BitVec 64))")
-		// an empty map has no keys
-		e.declareRaw("(assert (forall ((ml.a " + ArraySort(sortOf(u.Key()), SBool) + ") (ml.k " + sortOf(u.Key()) + ")) (! (=> (= (maplen." + mangle(typeKey(u.Key())) + " ml.a) #x0000000000000000) (not (select ml.a ml.k))) :pattern ((maplen." + mangle(typeKey(u.Key())) + " ml.a) (select ml.a ml.k)))))")
 		e.vc.Assume(True, Eq(r, App("maplen."+mangle(typeKey(u.Key())), BV(64), Select(e.heapGet(mp, ps), mr))))
+		// an empty map has no keys (stated for this map only)
+		mk := Sym("ml.q", sortOf(u.Key()))
+		pres := Select(Select(e.heapGet(mp, ps), mr), mk)
+		e.vc.Assume(True, Implies(Eq(r, bv64zero), Forall([][2]string{{"ml.q", sortOf(u.Key())}}, Not(pres), pres)))
 		return r
 	case *types.Chan:
 		return e.vc.Fresh("chanlen", BV(64))
